@@ -11,14 +11,22 @@ pub struct FlowControl {
     /// The max amount of outstanding messages before applying backpressure.
     max_outstanding_messages: u64,
 
-    /// The current amount of outstanding bytes.
-    outstanding_bytes: AtomicU64,
-
-    /// The current amount of outstanding messages.
-    outstanding_messages: AtomicU64,
+    /// The current outstanding values, kept in a single word so that both of
+    /// them are read and updated as one consistent snapshot: the message count
+    /// lives in the upper half, the byte count in the lower half.
+    outstanding: AtomicU64,
 
     /// The notifier used for checking whether we are able to continue.
     notifier: Notify,
+}
+
+/// The amount of bits used for the byte count in the packed word.
+const BYTES_BITS: u32 = 32;
+
+/// Packs the given values into a single word.
+#[inline]
+fn pack(bytes: u64, messages: u64) -> u64 {
+    (messages << BYTES_BITS).wrapping_add(bytes)
 }
 
 impl FlowControl {
@@ -46,34 +54,36 @@ impl FlowControl {
     /// Increments the outstanding values.
     pub fn inc(&self, outstanding_bytes_delta: u64, outstanding_messages_delta: u64) {
         // We only need Acq/Rel ordering because our changes are commutative.
-        self.outstanding_bytes
-            .fetch_add(outstanding_bytes_delta, Ordering::AcqRel);
-        self.outstanding_messages
-            .fetch_add(outstanding_messages_delta, Ordering::AcqRel);
+        self.outstanding.fetch_add(
+            pack(outstanding_bytes_delta, outstanding_messages_delta),
+            Ordering::AcqRel,
+        );
         self.notifier.notify_waiters();
     }
 
     /// Increments the outstanding values.
     pub fn dec(&self, outstanding_bytes_delta: u64, outstanding_messages_delta: u64) {
         // We only need Acq/Rel ordering because our changes are commutative.
-        self.outstanding_bytes
-            .fetch_sub(outstanding_bytes_delta, Ordering::AcqRel);
-        self.outstanding_messages
-            .fetch_sub(outstanding_messages_delta, Ordering::AcqRel);
+        self.outstanding.fetch_sub(
+            pack(outstanding_bytes_delta, outstanding_messages_delta),
+            Ordering::AcqRel,
+        );
         self.notifier.notify_waiters();
     }
 
     /// Checks whether there is available space.
     ///
-    /// This uses atomic load operations. It is acceptable that we go above
-    /// the limits.
+    /// This uses a single atomic load operation, so both values belong to the
+    /// same snapshot. It is acceptable that we go above the limits.
     pub fn has_available_space(&self) -> bool {
-        let available_messages = self.outstanding_messages.load(Ordering::Acquire);
+        let outstanding = self.outstanding.load(Ordering::Acquire);
+
+        let available_messages = outstanding >> BYTES_BITS;
         if available_messages >= self.max_outstanding_messages {
             return false;
         }
 
-        let available_bytes = self.outstanding_bytes.load(Ordering::Acquire);
+        let available_bytes = outstanding & ((1 << BYTES_BITS) - 1);
         if available_bytes >= self.max_outstanding_bytes {
             return false;
         }
@@ -86,16 +96,14 @@ impl FlowControl {
 ///
 /// Once either of the conditions have been met, backpressure will be applied.
 pub fn create(max_outstanding_bytes: u64, max_outstanding_messages: u64) -> FlowControl {
-    let outstanding_bytes = AtomicU64::new(0);
-    let outstanding_messages = AtomicU64::new(0);
+    let outstanding = AtomicU64::new(pack(0, 0));
 
     let notifier = Notify::new();
 
     let control = FlowControl {
         max_outstanding_messages,
         max_outstanding_bytes,
-        outstanding_bytes,
-        outstanding_messages,
+        outstanding,
         notifier,
     };
 
